@@ -468,7 +468,7 @@ fn main() {
         return;
     }
     let threads = a.pick(2, 8) as u64;
-    let n_random = a.pick(40_000u64, 1_500_000u64);
+    let n_random = a.pick(40_000u64, 5_000_000u64);
     std::thread::scope(|s| {
         for shard in 0..threads {
             let rep = &rep;
